@@ -5,6 +5,19 @@ V = os.path.dirname(os.path.dirname(os.path.abspath(__file__)))
 props = [json.loads(l) for l in open(os.path.join(V, "properties.jsonl"))]
 
 CLAIMS = {
+ "C10": dict(
+   text="StaticValidity.tla defines Valid(program) as exactly the listed classes over the node table and import graph, and compile() as a "
+        "machine with one action per documented outcome. TLC validates every recorded compile outcome: injected violations of every class in "
+        "every structural position (routines, called and unused macros, nested blocks), valid programs, degenerate files, token-level "
+        "corruptions, random text/bytes, import graphs with cycles / missing files / routines in imports.",
+   ref="§3 C10", technique="TLC validation of recorded compile() outcomes against StaticValidity.tla (outcome machine + Valid predicate)",
+   note="sampled input space; Valid() is evaluated only for syntactically correct inputs; one listed known finding"),
+ "C14": dict(
+   text="SourceMapOps.tla specifies store/reload and Rewrite(m, f) on the four tables; TLC validates the recorded behaviour of the real class "
+        "on synthetic maps over offsets 0..3 (all entry subsets, return addresses incl. 0/none, called_in, int/string parameter values, marks) "
+        "and on maps built by the real compiler, each under identity / shifting / dropping / reversing / random injective mappings.",
+   ref="§3 C14", technique="TLC validation of recorded serialize/deserialize/rewrite_offsets results against the SourceMapOps.tla state machine",
+   note="bounded synthetic maps + sampled real maps; a dropped return address with no later survivor keeps its value"),
  "C04": dict(
    text="Literals.tla holds the specified readers (single/multi-line strings with the documented escapes and dedent rules, integers in "
         "four bases, fixed-point decimals, position coordinates) and the printer's choice function. TLC (a) shows at design level that "
